@@ -1819,8 +1819,14 @@ class Evaluator(object):
         var = ast.Name(id='_fv%d' % self._depth, ctx=ast.Load())
         tgt = ast.Name(id=var.id, ctx=ast.Store())
         new = None
+
+        def _apply(f_, x_):
+            # map(obj.__getitem__, xs) is [obj[x] for x in xs]
+            if isinstance(f_, ast.Attribute) and f_.attr == '__getitem__':
+                return ast.Subscript(value=f_.value, slice=x_, ctx=ast.Load())
+            return ast.Call(func=f_, args=[x_], keywords=[])
         if name == 'map' and len(node.args) == 2:
-            new = ast.GeneratorExp(elt=ast.Call(func=node.args[0], args=[var], keywords=[]), generators=[ast.comprehension(target=tgt, iter=node.args[1], ifs=[], is_async=0)])
+            new = ast.GeneratorExp(elt=_apply(node.args[0], var), generators=[ast.comprehension(target=tgt, iter=node.args[1], ifs=[], is_async=0)])
         elif name == 'filter' and len(node.args) == 2:
             test = var if (isinstance(node.args[0], ast.Constant) and node.args[0].value is None) else ast.Call(func=node.args[0], args=[var], keywords=[])
             new = ast.GeneratorExp(elt=var, generators=[ast.comprehension(target=tgt, iter=node.args[1], ifs=[test], is_async=0)])
@@ -1830,7 +1836,7 @@ class Evaluator(object):
                 and node.args[0].func.id in ('map', 'filter') and node.args[0].func.id not in st.env and len(node.args[0].args) == 2 and not node.args[0].keywords:
             inner = node.args[0]
             if inner.func.id == 'map':
-                new = ast.ListComp(elt=ast.Call(func=inner.args[0], args=[var], keywords=[]), generators=[ast.comprehension(target=tgt, iter=inner.args[1], ifs=[], is_async=0)])
+                new = ast.ListComp(elt=_apply(inner.args[0], var), generators=[ast.comprehension(target=tgt, iter=inner.args[1], ifs=[], is_async=0)])
             else:
                 test = var if (isinstance(inner.args[0], ast.Constant) and inner.args[0].value is None) else ast.Call(func=inner.args[0], args=[var], keywords=[])
                 new = ast.ListComp(elt=var, generators=[ast.comprehension(target=tgt, iter=inner.args[1], ifs=[test], is_async=0)])
